@@ -40,8 +40,8 @@ ASSUMPTIONS = [
     'after a HARD_ERROR inside a FILE-LIST the entries listed before the failing one have been applied ("Files are '
     'created/modified in the order listed"); intermediate directories of the failing entry itself are tolerated',
     'not generated (manual silent): symlinks inside a populated directory; for symlinks inside a dir-contents-of '
-    'source no particular treatment is demanded, only uniformity over depth, faithful contents and an untouched source; '
-    'dir-contents-of onto a directory that already has one of the copied names; FILE-NAMEs with `.`, empty components, '
+    ' source no particular treatment is demanded, only uniformity over depth, faithful contents and an untouched source; '
+    'FILE-NAMEs with `.`, empty components, '
     'trailing `/`, or `..` inside a component (a..b); symlink loops; absolute symlink targets; negative depths',
     'not judged (manual silent): whether a HARD_ERROR of a file-matcher inside every/any/-selection/-with-pruned/'
     'matches is reached when another file already decides the verdict (iteration order); `path GLOB` where the '
@@ -885,6 +885,17 @@ dir-contents top : -selection dir-contents any file : name f num-files == 2
      'text': '[setup]\ndir d = dir-contents-of -rel-home afile\n'},
     {'name': 'bad-copy-source-sandbox', 'expect': 'REJECT', 'act': {},
      'text': '[setup]\ndir d = dir-contents-of -rel-act no-such-dir\n', 'tolerate': ['d']},
+    # dir-contents-of onto a directory that already holds one of the names to copy.  Every creating form of a
+    # FILE-SPEC says "The path must not exist" (only the += forms modify what exists): a name that exists is a clash,
+    # the population fails (HARD_ERROR) - it is never skipped silently or overwritten
+    {'name': 'copy-clash-with-file', 'expect': 'HARD_ERROR', 'act': None,
+     'text': "[setup]\ndir d = {\n  file a = 'first'\n}\ndir d += dir-contents-of -rel-home src1\n"},
+    {'name': 'copy-clash-with-dir', 'expect': 'HARD_ERROR', 'act': None,
+     'text': "[setup]\ndir d = {\n  dir s\n}\ndir d += dir-contents-of -rel-home src1\n"},
+    {'name': 'copy-clash-in-nested-list', 'expect': 'HARD_ERROR', 'act': None,
+     'text': "[setup]\ndir d = {\n  dir n = {\n    file k\n  }\n  dir n += dir-contents-of -rel-home src2\n}\n"},
+    {'name': 'copy-twice-into-same-dir', 'expect': 'HARD_ERROR', 'act': None,
+     'text': "[setup]\ndir d = dir-contents-of -rel-home src2\ndir d += dir-contents-of -rel-home src2\n"},
 ]
 
 
